@@ -55,8 +55,8 @@ pub struct Case {
     pub tolerated_divergence: bool,
 }
 
-const SLOTS: &[u32] = &[1, 2, 3, 5, 21, 1000];
-const DURATIONS: &[u32] = &[1, 2, 5, 20, 150, 500];
+const SLOTS: &[u32] = &[1, 2, 3, 5, 21, 1000, 0, u32::MAX];
+const DURATIONS: &[u32] = &[1, 2, 5, 20, 150, 500, 0];
 const GRACES: &[u32] = &[0, 1, 2, 6, 42];
 
 impl Case {
@@ -69,7 +69,7 @@ impl Case {
         let (s, d, g) = match bias {
             // trackers must live for 100+ blocks
             "chain" => (*rng.pick(&[5u32, 21, 1000]), *rng.pick(&[150u32, 500, 500]), *rng.pick(GRACES)),
-            "expiry" => (*rng.pick(SLOTS), *rng.pick(&[1u32, 2, 5, 20]), *rng.pick(GRACES)),
+            "expiry" => (*rng.pick(&[0u32, 1, 2, 3, 5, 21, 1000, 0x8000_0000, u32::MAX]), *rng.pick(&[0u32, 1, 2, 5, 20]), *rng.pick(GRACES)),
             _ => (*rng.pick(SLOTS), *rng.pick(DURATIONS), *rng.pick(GRACES)),
         };
         let db_path = dir.join(format!("case-{id}.sqlite"));
@@ -387,8 +387,11 @@ impl Case {
             match tower::get_user(&s.api, id.clone()) {
                 None => self.v(viol(&["C07"], "C07:user-memory-vs-disk", format!("{ctx}: user on disk but unknown to get_user"))),
                 Some(u) => {
-                    if u.available_slots != row.available_slots || u.subscription_expiry != row.expiry {
+                    if u.available_slots != row.available_slots {
                         self.v(viol(&["C07"], "C07:balance-memory-vs-disk", format!("{ctx}: get_user says (slots {}, expiry {}), the users row says (slots {}, expiry {})", u.available_slots, u.subscription_expiry, row.available_slots, row.expiry)));
+                    }
+                    if u.subscription_expiry != row.expiry {
+                        self.v(viol(&["C09", "C07"], "C09:expiry-memory-vs-disk", format!("{ctx}: get_user says expiry {}, the users row says expiry {}", u.subscription_expiry, row.expiry)));
                     }
                     let mem: BTreeSet<Vec<u8>> = u.appointments.into_iter().collect();
                     let disk: BTreeSet<Vec<u8>> = snap.appts.iter().filter(|(_, a)| a.user_id == *id).map(|(k, _)| k.clone()).collect();
